@@ -31,6 +31,7 @@ def scn(params):
         out["sets"]["effect_kinds"] = {repr(x) for x in kinds}
         att = {repr(a) for a in H.attacks}
         out["sets"]["attack_kinds"] = att
+        out["sets"]["build_variants"] = {str(params.get("variant"))}
         refused = st["c03_priv_refused"] + st["c03_unauth_effect_attempts"]
         if st["c03_logins_ok"] >= 1 and refused >= 5 and len(H.attacks) >= 3:
             for a in H.attacks:
@@ -51,7 +52,8 @@ def run(ctx):
                 "login/data/ping) naming slots in every state (version-only, logged-in, expired, lost to a newcomer, never "
                 "used, out of range) from the owner's and from foreign addresses (IPv4/IPv6), login responses for "
                 "earlier/other/off-by-one challenges, flipped bits, wrong password, truncated, time advances across "
-                "60 s, slot reuse; -c on/off, random passwords, subnets /8../30. Oracle: shadow model from hashlib MD5 - "
+                "60 s, slot reuse; -c on/off, random passwords, subnets /8../30; one third of the histories against builds with "
+                "DNSCACHE_LEN or OUTPACKETQ_LEN undefined (the knobs src/user.h documents). Oracle: shadow model from hashlib MD5 - "
                 "login accept, I/S/O/N acknowledgements, raw login reply, server tun writes and client-to-client forwards "
                 "(identified by unique packet ids), settings changes between consecutive users[] snapshots, and the "
                 "table's authenticated flags all require a correct response to the slot's current challenge. "
@@ -66,7 +68,18 @@ def run(ctx):
         plist = [ctx.replay["witness"]["params"]]
     res.min_evaluations = 0 if ctx.replay else 2000
     res.min_nontrivial = 0 if ctx.replay else ctx.pick(60, 150)
-    with core.Build() as b:
-        simrun.run_scenarios(res, b, scn, plist, jobs=ctx.jobs)
+    # a share of the histories runs against builds with one of the documented compile-time knobs of src/user.h
+    # switched off (no DNS cache / no outgoing packet queue): the authentication guards must not depend on them
+    if not ctx.replay:
+        for i, p in enumerate(plist):
+            p["variant"] = [None, None, None, None, "nodnscache", "nooutq"][i % 6]
+    for variant in (None, "nodnscache", "nooutq"):
+        sub = [p for p in plist if p.get("variant") == variant]
+        if not sub:
+            continue
+        with core.Build(variant=variant) as b:
+            if not b.variant_applied:
+                res.notes = getattr(res, "notes", []) + ["build variant %s: knob not found in src/user.h, histories run on the default build" % variant]
+            simrun.run_scenarios(res, b, scn, sub, jobs=ctx.jobs)
     simrun.finalize_sets(res)
     return res
